@@ -62,7 +62,7 @@ def _recv(fd):
     return pickle.loads(bytes(buf))
 
 
-def _in_child(fn, *args):
+def _in_child(fn, *args, deadline_s=None):
     """Run fn(*args) in a forked child of the calling (pristine) process; return its result."""
     r, w = os.pipe()
     pid = os.fork()
@@ -81,7 +81,7 @@ def _in_child(fn, *args):
             os._exit(rc)
     os.close(w)
     try:
-        ready, _, _ = select.select([r], [], [], CHILD_DEADLINE_S)
+        ready, _, _ = select.select([r], [], [], deadline_s or CHILD_DEADLINE_S)
         if not ready:
             try:
                 os.kill(pid, signal.SIGKILL)
@@ -244,6 +244,13 @@ def init_zygote():
         return _ZYGOTE
     _ZYGOTE = Zygote()
     return _ZYGOTE
+
+
+def adopt_zygote():
+    """A chunk child (forked from a pool worker that is blocked waiting for it) takes over the worker's
+    zygote connection: the zygote itself was forked while the worker was pristine and stays pristine."""
+    if _ZYGOTE is not None:
+        _ZYGOTE.owner = os.getpid()
 
 
 def zygote():
